@@ -443,9 +443,125 @@ def check_run_2d(ctx, method, x, z, data, kw, desc, c1d, style=''):
     return nbad
 
 
+
+# ------------------------------------------------------------------ large enumerated grids (size-gated paths)
+LARGE_SHAPES = [(260, 250), (1300, 52), (48, 1400)]      # > 62,500 points; square-ish, M >> N, N >> M
+
+
+def large_cells():
+    """FIXED grid of (method, shape, kwargs): every 2-D spline host on grids just above the size where an
+    implementation would plausibly switch to a 'memory saving' path (full Kronecker basis > 1e6 stored entries
+    with cubic splines), including very non-square grids."""
+    cells = []
+    for mi, method in enumerate(METHODS_2D):
+        shapes = LARGE_SHAPES if method == 'pspline_iasls' else [LARGE_SHAPES[0], LARGE_SHAPES[1 + mi % 2]]
+        for si, shape in enumerate(shapes):
+            kw = dict(num_knots=(8, 6) if si % 2 == 0 else (5, 9), spline_degree=3, diff_order=(2, 3) if si else 2,
+                      lam=(1e2, 3e0))
+            if method == 'pspline_iasls':
+                for lam_1 in (None, (1e-2, 0.5)):
+                    k2 = dict(kw)
+                    if lam_1 is not None:
+                        k2['lam_1'] = lam_1
+                    cells.append((method, shape, k2))
+            else:
+                cells.append((method, shape, kw))
+    return cells
+
+
+def large_data(M, N, tag):
+    g = np.random.default_rng(1000 + tag)
+    x = np.sort(np.linspace(0.0, 10.0, M) + 0.3 * (10.0 / M) * g.uniform(-1, 1, M))
+    z = np.sort(np.linspace(-3.0, 40.0, N) + 0.3 * (43.0 / N) * g.uniform(-1, 1, N))
+    tx = (x - x.min()) / (x.max() - x.min())
+    tz = (z - z.min()) / (z.max() - z.min())
+    data = (3 + 2 * tx[:, None] + tz[None, :] ** 2
+            + 7 * np.exp(-0.5 * (((tx[:, None] - 0.4) / 0.08) ** 2 + ((tz[None, :] - 0.6) / 0.1) ** 2))
+            + 0.05 * g.standard_normal((M, N)))
+    return x, z, data
+
+
+def d1_gram(n):
+    D = np.diff(np.eye(n), 1, axis=0)
+    return D.T @ D
+
+
+def check_large_2d(ctx, method, shape, kw, desc, c1d):
+    """Residual certificate r = (B'WB + P [+ B'P_1B]) c - (B'Wy [+ B'P_1 y]) of every pass, evaluated through the
+    Kronecker structure (never forming kron(B_r, B_c) or a dense reference), plus surface = B_r C B_c'."""
+    M, N = shape
+    x, z, data = large_data(M, N, desc['tag'])
+    kw = dict(kw)
+    if accepts2(method, 'max_iter'):
+        kw['max_iter'] = 1
+    if accepts2(method, 'tol'):
+        kw['tol'] = 0.0
+    (kr, kc), (nkr, nkc), (dr, dc) = pair(kw['spline_degree']), pair(kw['num_knots']), pair(kw['diff_order'])
+    kr, kc, nkr, nkc, dr, dc = int(kr), int(kc), int(nkr), int(nkc), int(dr), int(dc)
+    lr, lc = pair(kw['lam'])
+    a, c = nkr + kr - 1, nkc + kc - 1
+    try:
+        with Capture2D() as cap:
+            run2d(method, x, z, data, **kw)
+    except Exception as exc:  # noqa
+        name = type(exc).__name__
+        ctx.fail(f'raises2d-large:{method}:{name}', f'2-D {method} on a {M} x {N} grid raised {name}: {exc}', desc)
+        return 1
+    Br = c1d.cox_de_boor(x, c1d.ref_knots(x, nkr, kr), kr)
+    Bc = c1d.cox_de_boor(z, c1d.ref_knots(z, nkc, kc), kc)
+    Dr, Dc = np.diff(np.eye(a), dr, axis=0), np.diff(np.eye(c), dc, axis=0)
+    Pr, Pc = lr * (Dr.T @ Dr), lc * (Dc.T @ Dc)
+    iasls = method == 'pspline_iasls'
+    if iasls:
+        l1r, l1c = pair(kw.get('lam_1', 1e-4))
+        P1r, P1c = float(l1r) * d1_gram(M), float(l1c) * d1_gram(N)
+    for idx, rec in enumerate(cap.calls):
+        W, Y, coef, outp = rec['w'], rec['y'], rec['coef'], rec['out']
+        ctx.case(('large2d', method, M, N, nkr, nkc, dr, dc, idx, desc['tag']), nontrivial=True, kind=f'oracle2d-large:{method}:{M}x{N}')
+        what = None
+        if coef.shape != (a * c,) or not np.all(np.isfinite(coef)):
+            what = f'{coef.shape} coefficients (finite: {bool(np.all(np.isfinite(coef)))}) for a {a} x {c} coefficient grid'
+        else:
+            C = coef.reshape(a, c)
+            F = Br @ C @ Bc.T
+            t1 = Br.T @ (W * F) @ Bc
+            t2 = Pr @ C + C @ Pc
+            b = Br.T @ (W * Y) @ Bc
+            t3 = np.zeros_like(t1)
+            if iasls:
+                t3 = Br.T @ (P1r @ F + F @ P1c) @ Bc
+                b = b + Br.T @ (P1r @ Y + Y @ P1c) @ Bc
+            resid = np.abs(t1 + t2 + t3 - b)
+            scale = float(np.max(np.abs(t1)) + np.max(np.abs(t2)) + np.max(np.abs(t3)) + np.max(np.abs(b))) + 1e-300
+            if float(np.max(resid)) > 1e-9 * scale:
+                r = np.unravel_index(int(np.argmax(resid)), resid.shape)
+                what = (f'coefficients do not solve the documented Kronecker P-spline system (coefficient {tuple(int(v) for v in r)}: '
+                        f'residual {resid[r]:.3e}, scale {scale:.3e})')
+            elif outp.shape != (M, N) or float(np.max(np.abs(F - outp))) > 1e-9 * (float(np.max(np.abs(F))) + float(np.max(np.abs(coef))) + 1e-300):
+                what = "returned surface differs from B_r C B_c'"
+        if what:
+            ctx.fail(f'system2d-large:{method}', f'2-D {method} on a {M} x {N} grid, pass {idx} (knots {(nkr, nkc)}, degree {(kr, kc)}, '
+                     f'diff_order {(dr, dc)}, kwargs {({k: v for k, v in kw.items() if k.startswith("lam")})}): {what}', desc)
+            return 1
+    if not cap.calls:
+        ctx.fail(f'system2d-large:{method}', f'2-D {method} on a {M} x {N} grid never called PSpline2D.solve', desc)
+        return 1
+    return 0
+
+
+def search_large_2d(ctx, c1d, every=1):
+    found = 0
+    for tag, (method, shape, kw) in enumerate(large_cells()):
+        if tag % every:
+            continue
+        desc = {'kind': 'large2d', 'method': method, 'shape': list(shape), 'kw': kw, 'tag': tag}
+        found += check_large_2d(ctx, method, shape, kw, desc, c1d)
+    return found
+
+
 def search_2d(ctx, budget, c1d):
     rng = ctx.rng
-    found = 0
+    found = search_large_2d(ctx, c1d)     # fixed enumerated cells first; they do not consume the random stream
     for method in METHODS_2D:
         for _ in range(ctx.n(5, 15) * budget):
             found += oracle_case_2d(ctx, rng, method, c1d) or 0
@@ -468,6 +584,11 @@ class _MiniCtx:
 
 def replay_2d(case, c1d):
     c = _MiniCtx()
+    if case.get('kind') == 'large2d':
+        kw = {k: (tuple(v) if isinstance(v, list) else v) for k, v in case['kw'].items()}
+        check_large_2d(c, case['method'], tuple(case['shape']), kw, case, c1d)
+        print('replay 2-D large grid:', c.fails or 'property holds on this input')
+        return 1 if c.fails else 0
     kw = dict(case['kw'])
     for k in ('weights',):
         if k in kw:
